@@ -1,8 +1,8 @@
 """C19 — named args: text, ordered pairs, one JSON object per line (DESIGN §4 C19)."""
 import re
-from qlib import (AnalysisBroken, strip, isnode, walk, is_call, norm_cmp, var_ref, is_null, const_val, short, call_obj,
+from qlib import (peel_not, AnalysisBroken, strip, isnode, walk, is_call, norm_cmp, var_ref, is_null, const_val, short, call_obj,
                   expr_key, field_name, is_this_field)
-from rules.common import (core_and_neg, tnode, other, cpos, npos, branches_on_call, in_subtree, need_some, loops_enclosing)
+from rules.common import (straight_after, core_and_neg, tnode, other, cpos, npos, branches_on_call, in_subtree, need_some, loops_enclosing)
 import gen_macros
 
 EXPLANATION = ("Named arguments. R1 (exhaustive over every generator macro defined, k = 0..26): the LOGV_ generator yields a literal "
@@ -32,6 +32,7 @@ def run(ctx):
     r2(ctx, facts)
     r3(ctx, facts)
     r4(ctx, facts)
+    r5_placeholder_scanner(ctx, facts)
 
 
 def r1(ctx):
@@ -113,6 +114,28 @@ def r2(ctx, facts):
                                 any(is_call(y, r"MacroMetadata::message_format$") for y in walk(x)) for x in walk(c)) for c in emps)
     ctx.ob("C19.R2d", "_populate_transit_event_from_frontend_queue:miss-stores-parse-result", ok,
            "on a miss the cache receives the parser's result for that same template", fn=f)
+    # R2g: the look-up result is dereferenced only when it found something; the insertion happens only on a miss
+    found = []
+    for b2, blk in g.blocks.items():
+        c = g.term_cond(b2)
+        if c is None:
+            continue
+        core, neg = core_and_neg(c)
+        cs_ = strip(core, casts=True)
+        if isnode(cs_) and is_call(cs_, r"operator(==|!=)") and any(is_call(x, r"(::c?end$|^std::c?end)") and any(is_this_field(y, "_named_args_templates") for y in walk(x)) for x in walk(cs_)):
+            lab = "F" if "operator==" in cs_["callee"] else "T"
+            found.append((b2, other(lab) if neg else lab))
+    inits_ = f.var_inits()
+    sv = [vid for vid, i in inits_.items() if isnode(i) and any(in_subtree(c, i) for c in finds)]
+    deref = [x for x in f.walk() if x["k"] in ("MemberExpr", "CXXOperatorCallExpr") and
+             ((x["k"] == "MemberExpr" and x.get("mname") in ("second", "first") and any(y["k"] == "DeclRefExpr" and y.get("did") in sv for y in walk(x.get("base")))) or
+              (x["k"] == "CXXOperatorCallExpr" and re.search(r"operator(->|\*)$", x.get("callee") or "") and any(var_ref(a) in sv for a in x["args"])))]
+    dp = sorted(set(p_ for x in deref for p_ in (g.positions(x) or [])))
+    ok = bool(found) and bool(sv) and bool(dp) and not g.exists_path([g.entry_node], dp, avoid_edges=found) and \
+        not g.exists_path([g.entry_node], npos(f, emps), avoid_edges=[(b2, other(l)) for (b2, l) in found])
+    ctx.ob("C19.R2g", "_populate_transit_event_from_frontend_queue:cache-entry-used-when-found", ok,
+           "the cached (template, names) pair is read through the look-up result only on its 'found' outcome, and a template is parsed "
+           "and inserted only on the 'not found' outcome (every order in which templates are first seen takes one of the two)", fn=f)
     # the bound names really are message_format / arg_names of the cached value: uses of ->second
     seconds = [x for x in f.walk() if x["k"] == "MemberExpr" and x.get("mname") == "second"]
     ctx.ob("C19.R2e", "_populate_transit_event_from_frontend_queue:cached-pair-used", len(seconds) >= 2,
@@ -206,6 +229,81 @@ def r3(ctx, facts):
             ok = over and not early and kinds == [',"', "<key>", '":"', "<value>", '"']
         ctx.ob("C19.R3f", site + ":one-pair-per-named-arg", ok,
                "every named argument is appended as ,\"key\":\"value\" in list order", fn=f)
+
+
+def r5_placeholder_scanner(ctx, facts):
+    """R5: the two facts about fmt's grammar the template scanner must respect to cut a named placeholder correctly"""
+    f = facts.need(BW + "_process_named_args_format_message", "A")[0]
+    g = f.g
+    tpl = f.rec["params"][0]["did"]
+    inits = f.var_inits()
+    decls = f.var_decls()
+
+    def search(ch):
+        return [c for c in f.calls(r"basic_string_view<.*>::(find_first_of|find)$") if var_ref(call_obj(c)) == tpl and
+                any(x["k"] == "CharacterLiteral" and x.get("val") == ord(ch) for x in walk(c["args"][0]))]
+    opens, closes = search("{"), search("}")
+    # the variable that holds the position of the field's close bracket = the one used to cut the text inside the placeholder
+    cut = [c for c in f.calls(r"basic_string_view<.*>::substr$") if var_ref(call_obj(c)) == tpl]
+    inside = None
+    for c in cut:
+        a0 = strip(c["args"][0], casts=True)
+        if isnode(a0) and a0["k"] == "BinaryOperator" and a0["op"] == "+" and const_val(a0["rhs"]) == 1 and len(c["args"]) > 1 and \
+                any(x["k"] == "DeclRefExpr" and x.get("dk") == "Var" for x in walk(c["args"][1])):
+            inside = c
+    if inside is None or not opens or not closes:
+        raise AnalysisBroken("_process_named_args_format_message: searches / cut of the placeholder text not found")
+    openv = var_ref(strip(inside["args"][0], casts=True)["lhs"])
+    closev = [x.get("did") for x in walk(inside["args"][1]) if x["k"] == "DeclRefExpr" and x.get("dk") == "Var" and x.get("did") != openv]
+    closev = closev[0] if closev else None
+    # R5a: the close bracket of a field is the first '}' after its open bracket: closev is defined by find('}', open + 1) and is not
+    # moved between that definition and the cut
+    defs = []
+    if closev in inits and isnode(inits[closev]):
+        defs.append(("init", inits[closev], g.pos_of(lambda n: isnode(n) and n.get("k") in ("Var", "DeclStmt") and (n.get("did") == closev or any(d.get("did") == closev for d in n.get("decls") or [])))))
+    for a in f.assignments_to_var(closev) if closev is not None else []:
+        defs.append(("assign", a.get("rhs"), g.positions(a)))
+    def first_after_open(e):
+        e = strip(e, casts=True)
+        if not is_call(e, r"basic_string_view<.*>::(find_first_of|find)$") or var_ref(call_obj(e)) != tpl:
+            return False
+        st = strip(e["args"][1], casts=True) if len(e["args"]) > 1 else None
+        return any(x["k"] == "CharacterLiteral" and x.get("val") == 125 for x in walk(e["args"][0])) and isnode(st) and st["k"] == "BinaryOperator" and \
+            st["op"] == "+" and var_ref(st["lhs"]) == openv and const_val(st["rhs"]) == 1
+    good = [d for d in defs if first_after_open(d[1])]
+    moved = [d for d in defs if not first_after_open(d[1])]
+    ip = g.positions(inside)
+    ok = bool(good) and closev is not None and \
+        not any(g.exists_path(d[2], ip) and any(g.exists_path(gd[2], d[2]) for gd in good) for d in moved) and \
+        all(not g.exists_path([g.entry_node], ip, avoid_nodes=[p_ for gd in good for p_ in gd[2]]) for _ in [0])
+    ctx.ob("C19.R5a", "_process_named_args_format_message:field-closed-by-first-brace", ok,
+           "the text of a named placeholder is cut between its '{' and the first '}' after it (fmt: a replacement field cannot contain "
+           "'}'); the position found by find('}', open + 1) is not moved before the cut — \"}}\" after a placeholder is literal text, "
+           "not part of it (%d other definition(s) of the close position reach the cut)" % len([d for d in moved if g.exists_path(d[2], ip)]), fn=f)
+    # R5b: "{{" is skipped only when the two braces are adjacent, and the scan resumes behind both
+    ok_b = False
+    for bid, b in g.blocks.items():
+        c = g.term_cond(bid)
+        nc = norm_cmp(c) if c is not None else None
+        if nc and nc[0] == "==" and isnode(peel_not(c)) and peel_not(c)["k"] == "BinaryOperator":
+            l, r = strip(peel_not(c)["lhs"], casts=True), strip(peel_not(c)["rhs"], casts=True)
+            for a, b_ in ((l, r), (r, l)):
+                while isnode(a) and a["k"] == "ParenExpr":
+                    a = strip(a.get("sub") or (a.get("c") or [None])[0], casts=True)
+                if isnode(a) and a["k"] == "BinaryOperator" and a["op"] == "-" and const_val(a["rhs"]) == 1 and var_ref(b_) == openv and var_ref(a["lhs"]) is not None:
+                    second = var_ref(a["lhs"])
+                    after = [g.node_ast(p_) for p_ in straight_after(g, bid, "T")]
+                    ok_b = any(isnode(n) and n.get("k") == "BinaryOperator" and n["op"] == "=" and var_ref(n["lhs"]) == openv and
+                               any(isnode(x) and x["k"] == "BinaryOperator" and x["op"] == "+" and var_ref(x["lhs"]) == second and const_val(x["rhs"]) == 1 for x in walk(n["rhs"]))
+                               for n in after)
+    ctx.ob("C19.R5b", "_process_named_args_format_message:escaped-open-brace", ok_b,
+           "\"{{\" is an escaped brace exactly when the second '{' directly follows the first (second - 1 == first); the scan then resumes "
+           "behind the second one", fn=f)
+    # R5c: literal text is carried over verbatim: what precedes the placeholder from the end of the previous one, and the tail
+    tail = [c for c in cut if c is not inside]
+    ok_c = len(tail) >= 2
+    ctx.ob("C19.R5c", "_process_named_args_format_message:literal-text-kept", ok_c,
+           "the text between placeholders and the tail after the last one are copied from the template (%d copies)" % len(tail), fn=f)
 
 
 def _same_entity(a, b):
